@@ -8,10 +8,10 @@ from pygradflow.params import NewtonType, StepControlType, StepSolverType
 BUDGET = 2000
 
 
-def wellposed(seed, n, m):
+def wellposed(seed, n, m, kw=None):
     """Checks the hypotheses of the property numerically; returns False for instances outside the class."""
     rng = np.random.default_rng(seed)
-    prob, x0, info = gen.convex_qp(rng, n, m, quad_rows=False)
+    prob, x0, info = gen.convex_qp(rng, n, m, quad_rows=False, **(kw or {}))
     ev = np.linalg.eigvalsh(prob.Q)
     if ev.min() <= 1e-3 or ev.max() / ev.min() > 1e3:
         return False
@@ -39,17 +39,31 @@ def groups(n, seed):
         s = int(rng.integers(0, 2 ** 31))
         nn = int(rng.integers(2, 9))
         mm = int(rng.integers(0, min(4, nn - 1) + 1))
-        if not wellposed(s, nn, mm):
+        kw = {"quad_rows": False}
+        vertex = (i % 4 == 0)
+        if vertex:
+            # all variables bounded, start at a vertex of the box (every variable on a bound)
+            krng = np.random.default_rng(s + 1)
+            kw["var_kinds"] = [["lower", "boxed", "upper"][int(krng.integers(0, 3))] for _ in range(nn)]
+        if not wellposed(s, nn, mm, {k: v for k, v in kw.items() if k != "quad_rows"}):
             rejected += 1
             continue
         pk = dict(variants[len(gs) % len(variants)], iteration_limit=BUDGET, display_interval=1e9)
-        gs.append({"tag": "C03", "runs": [{"prob": ("convex_qp", s, nn, mm, {"quad_rows": False}), "params": pk, "wellposed": True}]})
+        rs = {"prob": ("convex_qp", s, nn, mm, kw), "params": pk, "wellposed": True}
+        if vertex:
+            rs["x0_on_bounds"] = True
+        gs.append({"tag": "C03", "runs": [rs]})
+    # strictly convex QPs over the simplex started at the origin (an infeasible vertex of the box)
+    for k in range(n // 6):
+        pk = dict(variants[[0, 8, 1, 6][k % 4]], iteration_limit=BUDGET, display_interval=1e9)
+        gs.append({"tag": "C03.simplex", "runs": [{"prob": ("simplex", int(rng.integers(0, 2 ** 31)), int(rng.integers(2, 6))),
+                                                   "params": pk, "wellposed": True}]})
     return gs, rejected
 
 
 def main():
     chk = Check("C03", level="exploration")
-    gs, rejected = groups(900 if chk.thorough else 72, chk.seed)
+    gs, rejected = groups(900 if chk.thorough else 96, chk.seed)
     br = chk.tv(gs, "C03 sweep")
     chk.assumptions += ["class: strictly convex Q (cond <= 1e3), affine rows of full row rank on the non-fixed variables (sigma_min >= 1e-2 sigma_max), "
                         "a strictly feasible point by construction, data O(1); instances failing the numerical test of these hypotheses are "
